@@ -92,6 +92,16 @@ func genC03(t *rapid.T) Case {
 		at := rapid.IntRange(0, len(c.Ops)).Draw(t, "wideAt")
 		c.Ops = append(c.Ops[:at:at], append(frag, c.Ops[at:]...)...)
 	}
+	// two wide transactions that overlap in time and write DISJOINT sets of 8-16 fresh keys: whatever the level,
+	// neither stands in the other's way (the "only if" half of the conflict rule, over many key pairs)
+	if rapid.IntRange(0, 3).Draw(t, "wideOverlap") == 0 {
+		la, lb := rapid.SampledFrom([]int{2, 3, 2, 1}).Draw(t, "woLvlA"), rapid.IntRange(0, 3).Draw(t, "woLvlB")
+		frag := []Op{{K: "begin", Lvl: la}, {K: "begin", Lvl: lb},
+			{K: "txburst", H: -2, N: rapid.IntRange(8, 16).Draw(t, "woNA")}, {K: "txburst", Last: true, N: rapid.IntRange(8, 16).Draw(t, "woNB")},
+			{K: "commit", Last: true}, {K: "commit", Last: true}}
+		c.Ops = append(frag, c.Ops...) // at the start, so that the two transactions are the only open ones
+		frag[2].H = 1
+	}
 	return c
 }
 
